@@ -156,7 +156,7 @@ def make_session(r, ctx, nops):
                 responses.append([10, bytes(r.getrandbits(8) for _ in range(r.randrange(0, 9))), j + 1, iid, 0])
             responses.append([12, b"", nb, iid, r.choice(dars)])
             ops.append(0)
-            expect.append(("raise",))
+            expect.append(("raise", None, [[5, j + 1, iid] for j in range(nb - 1)]))      # the blocks before the error are acknowledged
         elif kind == "set":
             code = r.choice([0] + dars)
             responses.append([13, b"", 0, iid, code])
@@ -181,8 +181,9 @@ def make_session(r, ctx, nops):
             responses.append([r.choice([13, 14, 18, 17]), b"", 0, iid, 0])
             ops.append(0)
             expect.append(("raise",))
-        if expect[-1][0] == "raise":
-            break
+        if kind == "get_unexpected":
+            break                  # a wrong kind of answer is refused by the association and leaves the request outstanding
+        # an error answer ends the request: the association must be usable for the next one, so the session goes on
     return [False, responses, ops], expect
 
 
@@ -202,7 +203,8 @@ def run(ctx):
             ctx.tried("session:" + cfg, key=(cfg, len(expect), tuple(e[0] for e in expect), len(args[1])))
             case = {"config": cfg, "session": lib.v_text(args) if sum(len(x[1]) for x in args[1]) < 3000 else None, "ops": args[2], "nresp": len(args[1])}
             acks = [s for s in sent if s[0] == 5]
-            want_acks = [x for e in expect if e[0] == "data" for x in e[2]]
+            want_acks = [x for e in expect if len(e) > 2 and e[0] in ("data", "raise") for x in e[2]]
+            unexpected_last = bool(args[1]) and args[1][-1][0] in (13, 14, 18, 17) and args[2][-1] == 0
             for e, o in zip(expect, outs):
                 if e[0] == "data" and o != e[1]:
                     ctx.fail("get_returned_wrong_data", dict(case, expected_len=len(e[1])), e[1].hex()[:80], lib.v_text(o)[:80])
@@ -220,9 +222,9 @@ def run(ctx):
                     ctx.fail("action_data", case, e[1].hex()[:60], lib.v_text(o)[:80])
                     break
             else:
-                if acks[:len(want_acks)] != want_acks and expect[-1][0] != "raise":
+                if acks[:len(want_acks)] != want_acks:
                     ctx.fail("block_acknowledgements", case, lib.v_text(want_acks)[:200], lib.v_text(acks)[:200])
-                elif expect[-1][0] != "raise" and state != 2:
+                elif not unexpected_last and state != 2:
                     ctx.fail("not_ready_after_session", case, "READY", str(state))
     ctx.sample({"kind": "session", "ops": sessions[2][0][2], "responses": len(sessions[2][0][1])})
 
